@@ -1472,3 +1472,17 @@ def run_preempt(program):
 
 
 FAMILIES['preempt'] = run_preempt
+
+
+# ---------------------------------------------------------------------------
+# family 'during': a mutation made from inside a looked-up specification's subscribe() while the lookup is in progress (props.C05)
+# ---------------------------------------------------------------------------
+
+def run_during_trace(program):
+    """program = [flavour 0/1, entry, mutation, other-key-cached]: trace = the interrupted answer and the repeated answer."""
+    from props import C05
+    flav, entry, mut, warm = program
+    return C05.run_during(('adapter', 'verifying')[flav], entry, mut, warm, trace=True)
+
+
+FAMILIES['during'] = run_during_trace
